@@ -19,6 +19,7 @@ def jobs(tier):
         J('tsk-keys-sample', dict(MODE=3, REGION_KEYS=1, POS_LO=0, POS_HI=1400, POS_STEP=41)),
         J('tsk-data-sample', dict(MODE=4, REGION_DATA=1, POS_LO=0, POS_HI=900, POS_STEP=29),
           require_tags={'end': 1, 'accepted': 1}),
+        J('tsk-offset-arrays', dict(MODE=4, REGION_OFFSETS=1), require_tags={'end': 1, 'accepted': 1}),
     ]
     if tier == 'quick':
         return q
@@ -36,7 +37,7 @@ BOUNDS = {
              'reference sequence, index); truncation: every prefix length as one solver variable, first or second object on '
              'a stream, eager and skip_tables / skip_reference_sequence paths; corruption: one byte with a free value at every '
              'header byte, every byte of the first descriptor, the top array_len byte of every descriptor, '
-             'every 41st key byte and every 29th data byte; every structural byte of a 3-item kastore file',
+             'every 41st key byte, every 29th data byte and every byte of every ragged-offset array; every structural byte of a 3-item kastore file',
     'thorough': 'as quick plus every descriptor byte, every key byte and every data byte of the tskit file (time-boxed)',
 }
 OUTSIDE = ['multi-byte substitutions', 'raise_known_file_format_errors (Python message mapping)', 'other dumped collections',
